@@ -97,3 +97,61 @@ func rulePairsBeforeCreation(p *Prog, r *Report, rule string) {
 	r.add(rule, "pairs-before-creation|panos.processVsysPairs", p.pos(fn.Pos()), fmt.Sprintf("%d pairing call(s) of the callback, then %d creating call(s)", len(pairing), len(creating)), ok,
 		"a creating call of the callback can be followed by a pairing call ("+bad+"): the vsys it creates is paired and merged again")
 }
+
+// R09.12: one error variable is not written by several goroutines.
+// `go fetch(a); go fetch(b)` with `err = …` inside fetch: whichever goroutine finishes last
+// decides what the caller sees; a failure reported first is overwritten by a later nil.
+func ruleSharedErrorInGoroutines(p *Prog, r *Report, rule string) {
+	r.rule(rule, "A failure is not overwritten: no function started as a goroutine more than once (two `go` statements, or one inside a loop) stores into an error variable it shares with its siblings (a captured variable or a pointer parameter). With a shared variable the goroutine that finishes last decides: a request that failed first is followed by a nil from the one that succeeded, and the run goes on with an empty list.")
+	n := 0
+	starts := map[*ssa.Function][]ssa.Instruction{}
+	for _, fn := range allModFuncs(p) {
+		for _, b := range fn.Blocks {
+			for _, in := range b.Instrs {
+				g, ok := in.(*ssa.Go)
+				if !ok {
+					continue
+				}
+				n++
+				for _, cal := range calleesOfSite(p, &callSite{In: g, Fn: fn, Static: g.Common().StaticCallee()}) {
+					starts[cal] = append(starts[cal], g)
+				}
+			}
+		}
+	}
+	for cal, gl := range starts {
+		multi := len(gl) > 1
+		for _, g := range gl {
+			b := g.Block()
+			if blockReaches(b, b) {
+				multi = true // inside a loop
+			}
+		}
+		if !multi {
+			continue
+		}
+		for _, f := range treeOf(cal) {
+			for _, b := range f.Blocks {
+				for _, in := range b.Instrs {
+					st, ok := in.(*ssa.Store)
+					if !ok || !isErrorType(st.Val.Type()) {
+						continue
+					}
+					root := cellRootOf(st.Addr)
+					shared := false
+					switch x := root.(type) {
+					case *ssa.Alloc:
+						shared = !inTree(cal, x.Parent())
+					case *ssa.FreeVar, *ssa.Parameter, *ssa.Global:
+						shared = true
+					}
+					if shared {
+						r.add(rule, "shared-error|"+fnDisplay(cal), p.ipos(st), "error variable written by "+fnDisplay(cal), false,
+							fmt.Sprintf("%s is started as a goroutine %d time(s) (%s) and stores into an error variable that all of them share: a later success overwrites an earlier failure", fnDisplay(cal), len(gl), p.ipos(gl[0])))
+					}
+				}
+			}
+		}
+	}
+	r.add(rule, "go-statements-examined", "", fmt.Sprintf("%d go statement(s) in the module examined", n), true, "")
+}
